@@ -30,7 +30,7 @@ def nontrivial(op, out):
 def gen_tree(ctx):
     rnd = ctx.rnd
     files = {}
-    if rnd.random() < 0.5:
+    if rnd.random() < 0.65:
         fs = G.unit_set(rnd)
     else:
         fs = {}
